@@ -13,7 +13,7 @@ using namespace ref;
 namespace eng {
 namespace {
 
-enum SigKind { S_NOCAL, S_AUTH_VALID, S_AUTH_EXPIRED, S_AUTH_FUTURE, S_AUTH_BADSIG, S_AUTH_UNKNOWN_CERT, S_PUB_IN_FILE, S_PUB_NOT_IN_FILE, S_INCONSISTENT, S_CAL_ONLY, S_AUTH_EDGE_EXPIRING, S_AUTH_EDGE_STARTING, S_AUTH_EC_GARBAGE, S_AUTH_LEAP_EXPIRED, S_AUTH_LEAP_VALID, S__COUNT };
+enum SigKind { S_NOCAL, S_AUTH_VALID, S_AUTH_EXPIRED, S_AUTH_FUTURE, S_AUTH_BADSIG, S_AUTH_UNKNOWN_CERT, S_PUB_IN_FILE, S_PUB_NOT_IN_FILE, S_INCONSISTENT, S_CAL_ONLY, S_AUTH_EDGE_EXPIRING, S_AUTH_EDGE_STARTING, S_AUTH_EC_GARBAGE, S_AUTH_LEAP_EXPIRED, S_AUTH_LEAP_VALID, S_AUTH_SAME_SECOND, S__COUNT };
 // S_AUTH_EC_GARBAGE: the authentication record names a listed, valid certificate with an EC key and carries a signature value that is
 // not even an encoded ECDSA signature (the verification primitive reports an error, not a mismatch): never acceptable
 // the fixture certificate auth_edge is valid from EDGE_T0 to EDGE_T1: one signature is aggregated just before it expires and published just
@@ -106,9 +106,14 @@ struct TrustSim {
 		bw.attach(ctx);
 		KSI_CTX_setTransferTimeoutSeconds(ctx, 5);
 		KSI_CTX_setOption(ctx, KSI_OPT_PUBFILE_CACHE_TTL_SECONDS, (void *)(size_t)plan.c("ttl", 0));
+		// a trust store without the system's default CA bundle (nothing of the host may decide a verdict; loading the bundle was two
+		// thirds of the cost of a run): the fixture CA only
 		KSI_PKITruststore *ts = nullptr;
-		KSI_CTX_getPKITruststore(ctx, &ts);
-		if (ts) KSI_PKITruststore_addLookupFile(ts, (fixtures_dir() + "/ca.pem").c_str());
+		if (KSI_PKITruststore_new(ctx, 0, &ts) == KSI_OK && ts) {
+			KSI_PKITruststore_addLookupFile(ts, (fixtures_dir() + "/ca.pem").c_str());
+			if (KSI_CTX_setPKITruststore(ctx, ts) != KSI_OK) { KSI_PKITruststore_free(ts); ts = nullptr; }
+		}
+		if (!ts) { K.inconclusive = true; return; }
 		static const KSI_CertConstraint cons[] = {{KSI_CERT_EMAIL, (char *)"publications@sim.test"}, {NULL, NULL}};
 		KSI_CTX_setDefaultPubFileCertConstraints(ctx, cons);
 		for (int k = 0; k < S__COUNT; k++) {
@@ -120,6 +125,7 @@ struct TrustSim {
 			if (k == S_PUB_IN_FILE || k == S_INCONSISTENT) p = P1;
 			if (k == S_PUB_NOT_IN_FILE) p = Px;
 			if (k == S_AUTH_EDGE_EXPIRING || k == S_AUTH_EDGE_STARTING) p = s.agg + 6;
+			if (k == S_AUTH_SAME_SECOND) p = s.agg;   // the calendar chain ends at the signature's own second
 			if (k != S_NOCAL) {
 				CalChain cc = w.cal.chain(s.agg, p);
 				s.pub = p; s.cal_root = cc.fold();
@@ -127,7 +133,7 @@ struct TrustSim {
 				std::string root = s.cal_root;
 				if (k == S_INCONSISTENT) root = imprint(1, "not the root");
 				if (k == S_PUB_IN_FILE || k == S_PUB_NOT_IN_FILE || k == S_INCONSISTENT) top.add(Tlv::nest(0x0803, {Tlv::nest(0x10, {Tlv::u64(0x02, p), Tlv::raw(0x04, root)})}));
-				if (k == S_AUTH_VALID) top.add(auth_rec(p, root, pki("auth_valid"), false, false));
+				if (k == S_AUTH_VALID || k == S_AUTH_SAME_SECOND) top.add(auth_rec(p, root, pki("auth_valid"), false, false));
 				if (k == S_AUTH_EXPIRED) top.add(auth_rec(p, root, pki("auth_expired"), false, false));
 				if (k == S_AUTH_FUTURE) top.add(auth_rec(p, root, pki("auth_future"), false, false));
 				if (k == S_AUTH_BADSIG) top.add(auth_rec(p, root, pki("auth_valid"), true, false));
@@ -231,7 +237,7 @@ struct TrustSim {
 		bool genuine = s.kind != S_INCONSISTENT;
 		bool has_pubrec = s.kind == S_PUB_IN_FILE || s.kind == S_PUB_NOT_IN_FILE;
 		// derivations of "the calendar root is bound to the anchor"
-		bool d_key = (s.kind == S_AUTH_VALID || s.kind == S_AUTH_EDGE_EXPIRING || s.kind == S_AUTH_LEAP_VALID) && file_trusted; // listed certificate valid at the aggregation time
+		bool d_key = (s.kind == S_AUTH_VALID || s.kind == S_AUTH_SAME_SECOND || s.kind == S_AUTH_EDGE_EXPIRING || s.kind == S_AUTH_LEAP_VALID) && file_trusted; // listed certificate valid at the aggregation time
 		// every trusted file kind lists (Pold, true root); only the honest one lists P1 and P2 truly
 		bool d_file = file_trusted && ((s.kind == S_PUB_IN_FILE && file_lists_true) || (ext_allowed && ext_honest && (file_lists_true || s.agg <= Pold)));
 		bool d_user = upk != 0 && up_true && up_time >= s.agg && ((has_pubrec && s.pub == up_time) || (ext_allowed && ext_honest));
@@ -269,7 +275,7 @@ struct TrustSim {
 			if (!fam_ok) K.fail("C04", "fail-with-undocumented-code", "policy-" + std::to_string(policy), "FAIL under policy %d with error code 0x%x outside the documented family", policy, ec);
 			// an unavailable / failing extender or publications file is inconclusive, never a contradiction
 			bool planted_contradiction = !genuine || upk == 3 || s.kind == S_AUTH_EXPIRED || s.kind == S_AUTH_LEAP_EXPIRED || s.kind == S_AUTH_FUTURE || s.kind == S_AUTH_EDGE_STARTING || s.kind == S_AUTH_BADSIG || s.kind == S_AUTH_EC_GARBAGE || fk == F_OTHER_HASHES ||
-				(ext_any && !bw.fault_fired && (e.behav == B_OTHER_INPUT || e.behav == B_ALTERED_RIGHT_LINK || e.behav == B_WRONG_AGG_TIME || e.behav == B_WRONG_PUB_TIME || e.behav == B_BAD_SHAPE || e.behav == B_EXTRA_LINKS || e.behav == B_NO_AGG_TIME));
+				(ext_any && !bw.fault_fired && (e.behav == B_OTHER_INPUT || e.behav == B_ALTERED_RIGHT_LINK || e.behav == B_WRONG_AGG_TIME || e.behav == B_WRONG_PUB_TIME || e.behav == B_BAD_SHAPE || e.behav == B_EXTRA_LINKS || e.behav == B_NO_AGG_TIME || e.behav == B_PUB_SHIFTED_NO_AGG));
 			if (!planted_contradiction && fam != 2 && fam != 1) K.fail("C04", "fail-without-contradicting-anchor", "policy-" + std::to_string(policy) + "/0x" + std::to_string(ec), "FAIL (0x%x) under policy %d although no anchor contradicts the signature (extender behaviour %s, fault %d, file kind %d)", ec, policy, behav_name(e.behav), e.fault, fk);
 		}
 		// clean contradictions must be FAIL
@@ -330,13 +336,16 @@ struct TrustEngine : run::Engine {
 		p.cfg["faults"] = g.chance(1, 2) ? 0 : 1;
 		p.cfg["ttl"] = g.chance(1, 3) ? 3600 : 0;
 		p.cfg["pdu_ver"] = g.chance(1, 4) ? 1 : 2;
-		p.cfg["loglevel"] = g.chance(1, 6) ? 5 : 0;
+		p.cfg["loglevel"] = g.chance(1, 6) ? g.pickl<int64_t>({5, 5, 6, 7}) : 0;
 		p.cfg["epoch_ms"] = (int64_t)g.below(1000);
-		int n = tier ? (int)g.range(2, 12) : (int)g.range(1, 4);
+		int n = tier ? (int)g.range(2, 16) : (int)g.range(2, 10);   // the set-up of a run (16 signatures, trust store) costs far more than a verification
+		// deviations that mean something for an extender reply (the others are honest replies there)
+		static const int64_t ext_behavs[] = {B_FOREIGN_ID, B_STALE_GEN, B_WRONG_AGG_TIME, B_WRONG_PUB_TIME, B_BAD_SHAPE, B_OTHER_INPUT, B_ALTERED_RIGHT_LINK, B_STATUS_ERR, B_ERROR_PDU,
+			B_BAD_MAC, B_OTHER_KEY, B_OTHER_ALG, B_OTHER_VER, B_NO_HEADER, B_NO_MAC, B_GARBAGE_PDU, B_WITH_CONF, B_STATUS_CONTENT, B_EXTRA_LINKS, B_NO_AGG_TIME, B_RESP_PLUS_ERROR, B_V1_REFLECT, B_PUB_SHIFTED_NO_AGG};
 		for (int i = 0; i < n; i++) {
 			if (g.chance(1, 6)) p.ops.push_back({"TICK", {g.pickl<int64_t>({1000, 600000, 3700000})}});
 			if (g.chance(1, 5)) p.ops.push_back({"EXTENDPUB", {(int64_t)g.below(S__COUNT), (int64_t)g.below(2), (int64_t)g.below(4), (int64_t)g.below(1 << 30)}});
-			p.ops.push_back({"VERIFY", {(int64_t)g.below(S__COUNT), (int64_t)g.below(5), (int64_t)g.below(5), (int64_t)g.below(2), (int64_t)g.below(2), (int64_t)g.below(B__COUNT), (int64_t)g.below(1 << 30),
+			p.ops.push_back({"VERIFY", {(int64_t)g.below(S__COUNT), (int64_t)g.below(5), (int64_t)g.below(5), (int64_t)g.below(2), g.chance(2, 3) ? 1 : 0, g.chance(3, 4) ? ext_behavs[g.below(sizeof ext_behavs / sizeof ext_behavs[0])] : (int64_t)g.below(B__COUNT), (int64_t)g.below(1 << 30),
 				g.chance(3, 4) ? 0 : (int64_t)g.range(1, 3), (int64_t)g.below(900), g.chance(1, 2) ? 0 : (int64_t)g.below(F__COUNT)}});
 		}
 		return p;
